@@ -118,6 +118,9 @@ type (
 		// CodeCloser is non-nil when the code should be closed after this module.
 		CodeCloser api.Closer
 
+		// resourceCloseMux serializes ensureResourcesClosed.
+		resourceCloseMux sync.Mutex
+
 		// s is the Store on which this module is instantiated.
 		s *Store
 		// prev and next hold the nodes in the linked list of ModuleInstance held by Store.
